@@ -87,7 +87,7 @@ Lemma worker_enabled : forall s i wk,
   enabledb pa s (TWork i) = true.
 Proof.
   intros s i wk HI E A.
-  pose proof (wf_at _ _ _ _ HI E) as Hw.
+  pose proof (wf_at _ _ _ _ _ HI E) as Hw.
   assert (GB : stg s < 4). { destruct HI. unfold stg. lia. }
   unfold enabledb, canon_label. cbn [step stutter]. unfold step_work. rewrite E.
   unfold activeb in A. unfold wfw in Hw.
@@ -137,7 +137,7 @@ Lemma deadlock_free_b : forall s, Inv s -> finalb s = false -> exists t, enabled
 Proof.
   intros s HI NF.
   destruct (cnt (activeb (closed s) (bgen s)) (ws s)) eqn:CA.
-  2:{ destruct (cnt_pos_ex _ _ (ws s)) as (i & wk & E & A); [rewrite CA; lia|].
+  2:{ destruct (cnt_pos_ex _ (activeb (closed s) (bgen s)) (ws s)) as (i & wk & E & A); [rewrite CA; lia|].
       exists (TWork i). eapply worker_enabled; eauto. }
   (* nobody is active: every worker is exited, blocked in not_empty.wait, or waiting at the barrier *)
   assert (PS : forall i x, nth_error (ws s) i = Some x ->
@@ -193,6 +193,134 @@ Proof.
   intros s HI NF. destruct (finalb s) eqn:F.
   - exfalso. apply NF. apply finalb_spec. auto.
   - destruct (deadlock_free_b s HI F) as (t & E). exists t. apply enabledb_sound. auto.
+Qed.
+
+(* ------------------------------------------------------------------------------------ the measure *)
+Lemma wsum_upd : forall c i x y l,
+  nth_error l i = Some y -> wsum c (upd i x l) + wpw c (pc y) = wsum c l + wpw c (pc x).
+Proof. intros. unfold wsum. apply (sum_upd _ (fun w => wpw c (pc w))). auto. Qed.
+
+Lemma wsum_close : forall l, wsum true l <= wsum false l + 2 * length l.
+Proof.
+  unfold wsum. intros. apply (sum_le_pointwise _ (fun w => wpw true (pc w)) (fun w => wpw false (pc w)) 2).
+  intros x. destruct (pc x); cbn; lia.
+Qed.
+
+Lemma measure_work : forall s i sq nb s',
+  Inv s -> step_work pa s i sq nb = Some s' -> mlt (measure s') (measure s).
+Proof.
+  intros s i sq nb s' HI H. unfold step_work in H.
+  destruct (nth_error (ws s) i) as [wk|] eqn:E; [|discriminate].
+  pose proof (wf_at _ _ _ _ _ HI E) as Hw.
+  assert (GB : stg s < 4). { destruct HI. unfold stg. lia. }
+  unfold wfw in Hw.
+  assert (PULL : (pc wk = WPull \/ pc wk = WWokenE) -> forall s', step_pull s i wk sq = Some s' ->
+                 mlt (measure s') (measure s)).
+  { clear H s'. intros Hpc s' H. unfold step_pull in H.
+    destruct (items s) as [|x rr] eqn:EI.
+    - destruct (closed s) eqn:C; inversion H; subst s'; clear H; left;
+        unfold measure, measureA; cbn [fst]; flds; rewrite C, EI, ?upd_length;
+        match goal with |- context [upd i ?w _] => pose proof (wsum_upd (closed s) i w _ _ E) as WS end;
+        rewrite C in WS; cbn [set_pc pc wpw] in WS; destruct Hpc as [P|P]; rewrite P in WS; cbn [wpw] in WS; lia.
+    - rewrite <- EI in H.
+      destruct (extract sq (items s)) as [[it rest]|] eqn:EX; [|discriminate].
+      destruct (is_max it (items s)); [|discriminate].
+      destruct (sub_u64 (cur s) (tsize (itask it))); [|discriminate].
+      inversion H; subst s'; clear H. apply extract_length in EX.
+      left. unfold measure, measureA; cbn [fst]; flds. rewrite EX, ?upd_length.
+      match goal with |- context [upd i ?w _] => pose proof (wsum_upd (closed s) i w _ _ E) as WS end.
+      cbn [set_pc pc] in WS.
+      assert (pstw (notify_full (pst s)) <= pstw (pst s) + 1) by (destruct (pst s); cbn; lia).
+      destruct (ttok (itask it)); destruct Hpc as [P|P]; rewrite P in WS; cbn [wpw] in WS;
+        change (14 - 3 * 0) with 14 in WS; lia. }
+  destruct (pc wk) as [| | |q|k|k g|k|] eqn:Hpc.
+  - apply PULL; auto.
+  - destruct (closed s) eqn:C; [|discriminate]. inversion H; subst s'; clear H. left.
+    unfold measure, measureA; cbn [fst]; flds. rewrite C, ?upd_length.
+    match goal with |- context [upd i ?w _] => pose proof (wsum_upd true i w _ _ E) as WS end.
+    rewrite Hpc in WS. cbn [set_pc pc wpw] in WS. lia.
+  - apply PULL; auto.
+  - inversion H; subst s'; clear H. left.
+    unfold measure, measureA; cbn [fst]; flds. rewrite ?upd_length.
+    match goal with |- context [upd i ?w _] => pose proof (wsum_upd (closed s) i w _ _ E) as WS end.
+    rewrite Hpc in WS. cbn [set_pc pc wpw] in WS. lia.
+  - unfold step_arrive in H. destruct (Nat.leb_spec 4 k); [discriminate|].
+    destruct (S (bcount s) <? nthr pa); inversion H; subst s'; clear H; left;
+      unfold measure, measureA; cbn [fst]; flds; rewrite ?upd_length;
+      match goal with |- context [upd i ?w _] => pose proof (wsum_upd (closed s) i w _ _ E) as WS end;
+      rewrite Hpc in WS; unfold after_bar in WS; cbn [set_pc pc wpw] in WS.
+    + lia.
+    + destruct (Nat.eqb_spec k 3); cbn [pc wpw] in WS; lia.
+  - destruct (g =? bgen s); [discriminate|]. inversion H; subst s'; clear H. left.
+    unfold measure, measureA; cbn [fst]; flds. rewrite ?upd_length.
+    match goal with |- context [upd i ?w _] => pose proof (wsum_upd (closed s) i w _ _ E) as WS end.
+    rewrite Hpc in WS. unfold after_bar in WS.
+    assert (k <= 3) by (destruct Hw as [(_ & ? & _)|(_ & [(? & _)|(? & _)])]; lia).
+    destruct (Nat.eqb_spec k 3); cbn [pc wpw] in WS; lia.
+  - destruct k as [|[|[|k]]]; [| | |discriminate].
+    + destruct (i =? 0); inversion H; subst s'; clear H; left;
+        unfold measure, measureA; cbn [fst]; flds; rewrite ?upd_length;
+        match goal with |- context [upd i ?w _] => pose proof (wsum_upd (closed s) i w _ _ E) as WS end;
+        rewrite Hpc in WS; cbn [set_pc pc wpw] in WS; lia.
+    + destruct (claimable s) eqn:CL; inversion H; subst s'; clear H.
+      * left. unfold measure, measureA; cbn [fst]; flds; rewrite ?upd_length.
+        match goal with |- context [upd i ?w _] => pose proof (wsum_upd (closed s) i w _ _ E) as WS end.
+        rewrite Hpc in WS; cbn [set_pc pc wpw] in WS; lia.
+      * right. unfold measure, measureA; cbn [fst snd]; flds. rewrite CL. lia.
+    + destruct (i =? 0); inversion H; subst s'; clear H; left;
+        unfold measure, measureA; cbn [fst]; flds; rewrite ?upd_length;
+        match goal with |- context [upd i ?w _] => pose proof (wsum_upd (closed s) i w _ _ E) as WS end;
+        rewrite Hpc in WS; cbn [set_pc pc wpw] in WS; lia.
+  - discriminate.
+Qed.
+
+Lemma measure_prod : forall s ntf s',
+  Inv s -> step_prod pa s ntf = Some s' -> stutter s (LProd ntf) = false -> mlt (measure s') (measure s).
+Proof.
+  intros s ntf s' HI H NS. unfold step_prod in H. cbn [stutter] in NS.
+  assert (PUSH : forall t rest, (pst s = PRun \/ pst s = PWokenF) -> todo s = OPush t :: rest ->
+                 step_push pa s t rest ntf = Some s' -> mlt (measure s') (measure s)).
+  { intros t rest P T HP. unfold step_push in HP.
+    destruct (closed s) eqn:C; [discriminate|].
+    destruct (push_blocked pa s (tsize t)).
+    - inversion HP; subst s'. left. unfold measure, measureA; cbn [fst]; flds. rewrite C.
+      destruct P as [P|P]; rewrite P; cbn [pstw]; lia.
+    - unfold admit in HP. destruct (notify_empty (ws s) ntf) as [l|] eqn:NE; [|discriminate].
+      inversion HP; subst s'. left. unfold measure, measureA; cbn [fst]; flds. rewrite C, T.
+      cbn [map opw list_sum length].
+      assert (WL : wsum false l <= wsum false (ws s) + 1 /\ length l = length (ws s)).
+      { unfold notify_empty in NE. destruct ntf as [j|].
+        - destruct (nth_error (ws s) j) as [w|] eqn:E; [|discriminate].
+          destruct (is_waitE w) eqn:W; [|discriminate]. inversion NE; subst l.
+          pose proof (wsum_upd false j (set_pc w WWokenE) _ _ E) as WS.
+          unfold is_waitE in W. destruct (pc w); try discriminate. cbn [set_pc pc wpw] in WS.
+          rewrite upd_length. lia.
+        - destruct (existsb is_waitE (ws s)); [discriminate|]. inversion NE; subst l. lia. }
+      assert (pstw (pst s) >= 1) by (destruct P as [P|P]; rewrite P; cbn; lia).
+      change (list_sum (17 :: map opw rest)) with (17 + list_sum (map opw rest)).
+      cbn [pstw]. lia. }
+  destruct (pst s) eqn:P.
+  - destruct (todo s) as [|[t|] rest] eqn:T.
+    + destruct (closed s) eqn:C; [discriminate|]. inversion H; subst s'. left.
+      unfold measure, measureA; cbn [fst]; flds. rewrite C, P, T. cbn [pstw].
+      pose proof (wsum_close (ws s)). lia.
+    + eapply PUSH; eauto.
+    + destruct (items s) eqn:EI; [|discriminate]. inversion H; subst s'. left.
+      unfold measure, measureA; cbn [fst]; flds. rewrite T, EI.
+      change (list_sum (map opw (OPoll :: rest))) with (1 + list_sum (map opw rest)). lia.
+  - discriminate.
+  - destruct (todo s) as [|[t|] rest] eqn:T; try discriminate. eapply PUSH; eauto.
+  - destruct (forallb is_exited (ws s)); [|discriminate]. inversion H; subst s'. left.
+    unfold measure, measureA; cbn [fst]; flds. rewrite P. cbn [pstw]. lia.
+  - discriminate.
+Qed.
+
+Theorem measure_decreases_proof : forall s l s',
+  Inv s -> step pa s l = Some s' -> stutter s l = false -> mlt (measure s') (measure s).
+Proof.
+  intros s l s' HI H NS. destruct l; cbn [stutter] in NS; try discriminate; cbn [step] in H.
+  - eapply measure_prod; eauto.
+  - eapply measure_work; eauto.
 Qed.
 
 End Live.
